@@ -99,36 +99,6 @@ def c11(case, det):
                     ok = True
         if ok:
             return "KF-38"
-    # KF-17: SELECT * over a join of tables whose metadata share a column name: the shared name is attributed to
-    # whichever table the set yields first
-    md = case.get("metadata") or {}
-    if md and "*" in case["sql"] and fields <= {"cyto_column", "column_paths"} | extra_fields:
-        shared = {}
-        for t, cols in md.items():
-            for c in cols:
-                shared.setdefault(c, set()).add(t)
-        shared = {c: ts for c, ts in shared.items() if len(ts) > 1}
-
-        def col_ok(cid):
-            t, _, c = cid.rpartition(".")
-            return c in shared and t in shared[c]
-
-        ok = bool(shared)
-        for fld in ("column_paths", "column_paths_incl_subquery", "column_paths_no_subquery_columns"):
-            if fld in a:
-                for p in [x for x in a[fld] if x not in b[fld]] + [x for x in b[fld] if x not in a[fld]]:
-                    if not col_ok(p[0]):
-                        ok = False
-        if "cyto_column" in a:
-            nodes, edges = _cyto_diff(a["cyto_column"], b["cyto_column"])
-            for n in nodes:
-                if not col_ok(str(n.get("id", ""))):
-                    ok = False
-            for e in edges:
-                if not col_ok(e[0]):
-                    ok = False
-        if ok:
-            return "KF-17"
     return None
 
 
